@@ -16,6 +16,10 @@ R14d one injection per request: PInterpreter.inject_node and MethodManager.parse
      engine's inject entry point (Engine.inject_code / _inject_code), once per call and not inside a loop - injecting a
      snippet a second time (for instance "again after a merge, because its node is not completed yet") re-parses it
      from source, so nothing of its progress is kept and its instructions run twice.
+R14e injected node ids are fresh for the whole run: runtime records, instance maps and interrupts are keyed by node id, so two
+     injected snippets with the same ids shadow each other (the later snippet's node is marked completed by the earlier
+     one and never runs). The id generator of the inject parser (the class constructed for it in MethodManager) keeps a
+     counter that, outside __init__, is only ever moved on by a non-zero constant (`-= 1` / `+= 1`) - never re-assigned.
 """
 from __future__ import annotations
 
@@ -177,3 +181,42 @@ def run(ctx) -> None:
                 targets.append(only)
     if n_sites < 3:
         raise AnchorError(f"only {n_sites} call sites on the inject chain found (floor 3)")
+
+    # ---- R14e
+    ctx.rule("R14e", "the inject parser's id generator never restarts")
+    cip = prog.func("openpectus.lang.model.parser:create_inject_parser")
+    ctx.analysed(cip)
+    gen_cls = None
+    for c in walk_no_nested(cip.node):
+        if isinstance(c, ast.Call) and call_attr(c) == "PcodeParser":
+            for a in list(c.args) + [k.value for k in c.keywords if k.arg == "id_generator"]:
+                if isinstance(a, ast.Call):
+                    k_ = prog.resolve_class_expr(cip.module, a.func)
+                    if k_ is not None:
+                        gen_cls = k_
+    if gen_cls is None:
+        raise AnchorError("method_manager: id generator of the inject parser not found")
+    init = gen_cls.methods.get("__init__")
+    counters = {t.attr for t, v, st in assigned_attrs(init.node)} if init is not None else set()
+    if not counters:
+        raise AnchorError(f"{gen_cls.name}.__init__: counter attribute not found")
+    n_w = 0
+    for k in gen_cls.mro():
+        for name, m in k.methods.items():
+            if name == "__init__":
+                continue
+            for n in walk_no_nested(m.node):
+                tgt = n.targets[0] if isinstance(n, ast.Assign) and len(n.targets) == 1 else (n.target if isinstance(n, (ast.AugAssign, ast.AnnAssign)) else None)
+                if not (isinstance(tgt, ast.Attribute) and tgt.attr in counters and norm(tgt.value) == "self"):
+                    continue
+                n_w += 1
+                inst = f"{k.name}.{name}: {norm(n)}"
+                if isinstance(n, ast.AugAssign) and isinstance(n.op, (ast.Add, ast.Sub)) and isinstance(n.value, ast.Constant) \
+                        and isinstance(n.value.value, int) and n.value.value != 0:
+                    ctx.ok("R14e", inst)
+                else:
+                    ctx.fail("R14e", m, n, inst, "the counter of the inject parser's id generator is re-assigned: the ids of a later "
+                             "injected snippet repeat those of an earlier one in the same run, its records are shadowed and its nodes "
+                             "are marked completed by the earlier snippet - the later snippet never runs")
+    if n_w == 0:
+        raise AnchorError(f"{gen_cls.name}: no counter update found")
